@@ -72,6 +72,11 @@ let () = iter_lines (fun line ->
   | "md" :: keys :: init :: ops ->
       let k = lst '/' keys in let d = md_init (if init = "n" then None else Some (marg init)) in
       pruns (md_obs k d) (md_run k d (List.map mop ops))
+  | ["mdeq"; a; b] -> pout (OBool (md_eqb (klists a) (klists b)))
+  | ["hdeq"; a; b] -> pout (OBool (hd_eqb (kvs s_of a) (kvs s_of b)))
+  | ["hseq"; a; b] -> pout (OBool (hs_eqb (hs_init (lst '/' a)) (hs_init (lst '/' b))))
+  | ["mdrebuild"; a] -> let d = klists a in
+      pstep [OLists (md_deepcopy d); OLists (imd_reduce d)]
   | ["mdor"; init; a] -> let d = md_init (Some (marg init)) in pout (match md_or d (marg a) with Ok o -> o | Err e -> OErr e)
   | "imd" :: keys :: init :: ops ->
       let k = lst '/' keys in let d = md_init (if init = "n" then None else Some (marg init)) in
